@@ -265,6 +265,44 @@ let run_case (line:str) : str =
                              @ L.map string_of_z t.tj_bounds @ L.map string_of_z t.tj_center))]
     else if st = 304 then "304 - - " ^ (if r.rs_etag then "1" else "0") ^ " -"
     else Printf.sprintf "%d - - 0 -" st
+  | "relevant" ->
+    let mz = tn ts in
+    let nb = ti ts in let b = L.init nb (fun _ -> let lo = tn ts in let hi = tn ts in (lo, hi)) in
+    let es = tents ts in
+    let (tiles, leaves) = relevant_entries b mz es in
+    "tiles " ^ ents_str tiles ^ " leaves " ^ ents_str leaves
+  | "reencode" ->
+    let es = tents ts in
+    let ((((re, rs), total), addr), cont) = reencode es in
+    S.concat " " [ents_str re; "ranges"; string_of_int (L.length rs);
+                  S.concat " " (L.concat_map (fun r -> [string_of_n r.r_src; string_of_n r.r_dst; string_of_n r.r_len]) rs)
+                  |> (fun x -> x)] |> (fun x -> S.concat " " (L.filter (fun t -> t <> "") (S.split_on_char ' ' x)))
+    |> (fun x -> x ^ " " ^ string_of_n total ^ " " ^ string_of_n addr ^ " " ^ string_of_n cont)
+  | "merge" | "mergechk" as op ->
+    let bits = z_of_string (tok ts) in
+    let n = ti ts in
+    let rs = L.init n (fun _ -> let a = tn ts in let b = tn ts in let c = tn ts in { r_src = a; r_dst = b; r_len = c }) in
+    let ofl = b32_of_bits bits in
+    let plan_str ps = S.concat " " (string_of_int (L.length ps) :: L.concat_map (fun p ->
+        [string_of_n p.p_src; string_of_n p.p_dst; string_of_n p.p_len; string_of_int (L.length p.p_cds)]
+        @ L.concat_map (fun (w, d) -> [string_of_n w; string_of_n d]) p.p_cds) ps) in
+    if op = "merge" then plan_str (merge_ranges rs ofl)
+    else begin
+      let _ = tok ts in (* PLANS *)
+      let np = ti ts in
+      let ps = L.init np (fun _ -> let a = tn ts in let b = tn ts in let c = tn ts in let k = ti ts in
+                  let cds = L.init k (fun _ -> let w = tn ts in let d = tn ts in (w, d)) in
+                  { p_src = a; p_dst = b; p_len = c; p_cds = cds }) in
+      if plan_ok rs ps (budget_f32 (total_len rs) ofl) then "planok true" else "planok false"
+    end
+  | "extract" | "extracth" ->
+    let minz = z_of_string (tok ts) in let maxz = z_of_string (tok ts) in
+    (match ts.t with "none" :: r -> ts.t <- r | _ -> let nb = ti ts in ignore (L.init nb (fun _ -> let a = tn ts in let b = tn ts in (a, b))));
+    let _ = tok ts in let _ = ti ts in let _ = tok ts in let _ = ti ts in let _ = ti ts in
+    let a = parse_arch ts in
+    (match extract_model a minz maxz with
+     | XOk a' -> S.concat " " ["ok"; proj_str a'.a_hdr; ents_str a'.a_entries; hex_of_bytes a'.a_data; hex_of_bytes a'.a_meta]
+     | XErr -> "err")
   | "srv" -> srv_case ts
   | "malformed" -> "ok"
   | "sched" -> "crash"
